@@ -44,9 +44,9 @@ CLAIMED["C07"] = ("full", "6/C07", "Lean 4 proof (omega/induction: little-endian
   "data_bytes, leBytes_decode, leBytes_length, data_size_agree, ascii_bytes, ascii_size_agree, incbin_bytes, incbin_symbols, gen_data. Tie: whole-pipeline model vs real assembler on data-directive programs (all kinds, boundary/negative/too-wide values, forward/backward labels, incbin of lengths 0..crossing a bank end) with the little-endian oracle on the per-node trace and label-after = start + size.",
   "Quoted texts without backslash escapes (DESIGN section 8).")
 
-CLAIMED["C08"] = ("partial: lookup, isolation, export proved; alpha-invariance by metamorphic twins", "6/C08", "Lean 4 proof on the resolver model (strong induction over the parent chain for lexical lookup, congruence for isolation, list induction for named-scope export, scope creation keeps the parent order) + whole-pipeline correspondence + metamorphic twins on the real assembler",
-  "valueFor_here/outward/root (innermost definition wins, falls back outward to the top level), isolation (a scope that is not the current one or an ancestor cannot influence a lookup), export_named + exported_last + exported_other (scopename.name gets the value, nothing else changes), restore_plain, appendScope_lexical. Tie: whole-pipeline model vs real assembler on generated programs; twins (rename to fresh, sibling reuse / shadowing rename, unrelated definition inserted) and hand-written families with expected bytes as oracle on the real code.",
-  "That the positional scope replay of the passes equals the lexical nesting for every generated node list (replay_consistent) and full alpha-invariance are not yet theorems; they are exercised by the twins.")
+CLAIMED["C08"] = ("lookup, isolation, export and replay consistency proved for every AST; alpha-invariance by metamorphic twins", "6/C08", "Lean 4 proof on the resolver model (strong induction over the parent chain for lexical lookup, congruence for isolation, list induction for named-scope export) and on the whole code generator (induction on the nesting budget and the AST with a Hoare-style post-condition composed along the monadic code: the generated node list replays the scope structure it created; the passes follow that replay) + whole-pipeline correspondence + metamorphic twins on the real assembler",
+  "valueFor_here/outward/root (innermost definition wins, falls back outward to the top level), isolation (a scope that is not the current one or an ancestor cannot influence a lookup), export_named + exported_last + exported_other (scopename.name gets the value, nothing else changes), restore_plain, appendScope_lexical; replay_consistent (for every AST and budget: positional replay of the generated ScopeNode/PopScopeNode markers enters exactly the scope created for each construct, returns to the enclosing scope, enters every new scope once, never runs out of scopes or parents, for every later extension of the scope list), scope_body_in_child, label_pass_follows_replay, emission_follows_replay, pass_skips_no_scope_marker. Tie: whole-pipeline model vs real assembler on generated and shadowing-heavy (wild) programs; twins (rename a local label to a fresh name; reuse a name in a sibling/inner scope; insert an unrelated definition) on the real assembler; hand-written families with expected bytes.",
+  "Full alpha-invariance (renaming a scope-local name never changes the output) is not a theorem; it is exercised by the twins.")
 CLAIMED["C09"] = ("full on the model for eager arguments (F09 repair); deferred-argument capture is a recorded limitation of the twin", "6/C09", "Lean 4 proof on the code-generation model (macro application = scope block with parameters bound to call-site values; code arguments spliced; failure cases) + whole-pipeline correspondence + inlined twins on the real assembler",
   "macro_is_block, block_is_scope, arg_value_at_call_site, deferred_arg, code_arg_spliced, not_code_fails, undefined_code_fails, undefined_macro_fails, too_few_args_fails(_gen), macro_def_records. Tie: model vs real assembler on generated programs with macros; twin = every application replaced by a block evaluating the arguments at the call site and binding the parameters; hand-written families (parameter-name coincidences, forward labels, local labels, nested and recursive applications, code blocks in nested scopes, failure cases).",
   "An argument deferred to the symbol pass (it names a label defined later) is evaluated inside the macro scope; generated programs use parameter names that cannot capture it.")
